@@ -543,7 +543,30 @@ func c13Run(c *mc.Ctx) {
 		}
 		c13One(c, []ref.Field{{ID: 3, V: m}}, fmt.Sprintf("map of %d entries", n/2+1))
 	}
-	c.Done("empty containers of all 121 key/value type pairs; containers whose members differ in encoded size; element counts 32767..65536")
+	// doubles are bit patterns: +0 next to -0, NaNs with different payloads, equal neighbours
+	if c.Mine() {
+		bits := []uint64{0, 0x8000000000000000, 0, 0, 0x8000000000000000, 0x8000000000000000, 0x7ff8000000000001, 0x7ff8000000000002, 0x7ff0000000000000, 0xfff0000000000000, 0x3ff0000000000000, 0x3ff0000000000000, 1, 0}
+		l := ref.Value{T: ref.LIST, Elem: ref.DOUBLE}
+		m := ref.Value{T: ref.MAP, Key: ref.DOUBLE, Elem: ref.DOUBLE}
+		for i, x := range bits {
+			l.L = append(l.L, ref.Value{T: ref.DOUBLE, I: x})
+			m.L = append(m.L, ref.Value{T: ref.DOUBLE, I: x}, ref.Value{T: ref.DOUBLE, I: bits[(i+1)%len(bits)]})
+		}
+		st := l
+		st.T = ref.SET
+		c13One(c, []ref.Field{{ID: 1, V: l}, {ID: 2, V: st}, {ID: 3, V: m}, {ID: 4, V: ref.Value{T: ref.DOUBLE, I: 0x8000000000000000}}, {ID: 5, V: ref.Value{T: ref.DOUBLE, I: 0}}}, "doubles as bit patterns (+0/-0 neighbours, NaN payloads)")
+		for _, t := range []int8{ref.I16, ref.I32, ref.I64, ref.BYTE, ref.BOOL} { // equal and sign-flipped neighbours of the other scalars
+			il := ref.Value{T: ref.LIST, Elem: t}
+			for _, x := range []uint64{0, 0, 1, 1, 0xff, 0xff, 0x8000, 0x8000, 0x80000000, 0x80000000, 0} {
+				if t == ref.BOOL {
+					x &= 1
+				}
+				il.L = append(il.L, ref.Value{T: t, I: x & map[int8]uint64{ref.BYTE: 0xff, ref.BOOL: 1, ref.I16: 0xffff, ref.I32: 0xffffffff, ref.I64: ^uint64(0)}[t]})
+			}
+			c13One(c, []ref.Field{{ID: 1, V: il}}, "equal neighbours in a scalar list")
+		}
+	}
+	c.Done("empty containers of all 121 key/value type pairs; containers whose members differ in encoded size; element counts 32767..65536; doubles as bit patterns")
 	// wide and shallow: many (empty and non-empty) containers in one message, far more than any nesting limit
 	for _, rows := range []int{63, 64, 65, 66, 129, 300, 5000} {
 		if !c.Mine() {
